@@ -57,8 +57,9 @@ RULE = ("random valid configuration dictionaries: V in 1..6 variables (few-bit d
         "as the JSON round trip of the dump (json.loads and pydantic's model_validate_json), as a dictionary of its validated sub-objects, every "
         "sub-object on its own in the context, a second round, and from a random re-spelling of "
         "the dictionary (case['spell']: tuples, ndarrays, numpy scalars, 0-d arrays, enum members, scalars written out, instances) whose "
-        "arrays are overwritten afterwards; all resulting objects and a model_copy(update=..) are swept (setattr on every field of every "
-        "reachable pydantic model; flags.writeable, element / whole-array / in-place-operator writes on every reachable ndarray). "
+        "arrays are overwritten afterwards; all resulting objects and a model_copy(update=..) are swept (setattr and delattr on every field of "
+        "every reachable pydantic model; flags.writeable, element / whole-array / in-place-operator writes and the .base chain of every "
+        "reachable ndarray). "
         "Non-trivial = the configuration was accepted and has V >= 2 or a constraint section, or it was rejected by a corruption; distinct = "
         "distinct case dictionaries.")
 ASSUMPTIONS = [
@@ -723,6 +724,10 @@ def _weights(rng, n, precise=False):
     elif r < 0.09:                   # the smallest accepted sum
         w = [0.0] * n
         w[rng.randrange(n)] = EPS
+    elif r < 0.13:                   # a sum next to one but not one (a shortcut for "already normalised" must not take it)
+        w = [0.0] * n
+        w[0] = 0.5 + rng.choice([2.0 ** -20, -2.0 ** -21, 2.0 ** -30, 2.0 ** -16])
+        w[1 if n > 1 else 0] += 0.5
     return w
 
 
